@@ -8,7 +8,7 @@ import bcrun
 import lib
 
 OPS = ["load27", "load38", "load312", "load313", "load15", "loadnative", "dis27classic", "dis38xasm", "dis312ext", "dis313bytes",
-       "opc27", "opc313", "opc36pypy", "std36", "std312", "marsh", "loadcorrupt", "importgraal", "std27", "std27pypy", "marsh27a", "marsh27b", "loaddropbox", "marshcode27"]
+       "opc27", "opc313", "opc36pypy", "std36", "std312", "marsh", "loadcorrupt", "importgraal", "std27", "std27pypy", "marsh27a", "marsh27b", "loaddropbox", "marshcode27", "load38nocode"]
 
 RULE = ("one case = one history (sequence of public operations: load_module of 1.5/2.7/3.8/3.12/3.13 files via xdis's unmarshaller and via the "
         "native fast path, disassemble_file in four formats, get_opcode for three tables, make_std_api for two versions, marsh dumps+loads, "
@@ -25,7 +25,7 @@ def files(d):
         return c[0] if c else None
     host = "3.12"
     f = {"f27": first("2.7", "lib_bisect") or sorted(glob.glob(str(lib.REPO / "test/bytecode_2.7/*.pyc")))[0],
-         "f38": first("3.8", "lib_bisect"), "f312": first("3.12", "gen_sx_lines"), "f313": first("3.13", "lib_bisect"),
+         "f38": first("3.8", "gen_sx_calls") or first("3.8", "lib_bisect"),      # lambdas and comprehensions: what the xasm format renames in place "f312": first("3.12", "gen_sx_lines"), "f313": first("3.13", "lib_bisect"),
          "f15": sorted(glob.glob(str(lib.REPO / "test/bytecode_1.5/*.pyc")))[0], "fhost": first(host, "lib_bisect"),
          "f27b": first("2.7", "lib_abc") or sorted(glob.glob(str(lib.REPO / "test/bytecode_2.7/*.pyc")))[1],
          "f27pypy": str(lib.REPO / "test/bytecode_2.7pypy/04_pypy_lambda.pyc"),
